@@ -94,7 +94,7 @@ def check_order(rows_lv, mode, entries_by_abs, res, ctxs):
                 return
 
 
-def run_case(res, w, home, roots, snaps, spec, trace):
+def run_case(res, w, home, roots, snaps, spec, trace, extra=""):
     """roots: list of (dirname under w); spec: list of (root_idx, spelling, a, b, mode) ; cwd handling inside."""
     cwd = w
     parts = []
@@ -131,9 +131,9 @@ def run_case(res, w, home, roots, snaps, spec, trace):
     if spec[0][1] == "implicit":
         opts = parts[0][len(q(".")):].strip()
         # without `from`, root options cannot be given; only use implicit with no options
-        query = "path into list" if not opts else "path from " + parts[0] + " into list"
+        query = "path%s into list" % extra if not opts else "path%s from " % extra + parts[0] + " into list"
     else:
-        query = "path from " + ", ".join(parts) + " into list"
+        query = "path%s from " % extra + ", ".join(parts) + " into list"
     r = runner.run([query], cwd=cwd, home=home, trace=trace)
     res.ev()
     ctxs = {"query": query, "cwd": cwd, "result": r.brief()}
@@ -146,7 +146,11 @@ def run_case(res, w, home, roots, snaps, spec, trace):
     if r.rc != 0 or r.err:
         res.viol("status %s / stderr %r on a fully readable tree" % (r.rc, r.err[:200]), ctxs)
         return
-    rows = r.rows()
+    try:
+        rows = [x[0] for x in r.rows(1 + extra.count(","))] if extra else r.rows()
+    except ValueError as e:
+        res.viol("undecodable output: %s" % e, ctxs)
+        return
     # expected multiset
     expected = {}
     by_abs = {}
@@ -287,7 +291,11 @@ def run_job(job):
                     pm = rng.choice(["symlinks", "symlinks", "dfs symlinks", "symlinks bfs", "symlinks dfs"])
                     spec.insert(rng.choice([0, 0, rng.randint(0, len(spec))]),
                                 (len(roots) - 2, rng.choice(["rel", "abs", "dotrel"]), rng.choice([None, None, 1, 2]), rng.choice([None, None, 1, 3]), pm))
-                run_case(res, w, home, roots, snaps, spec, trace=(qi % 4 == 0))
+                # which entries are listed does not depend on which of their columns are asked for
+                extra = rng.choice(["", "", "", ", size", ", is_dir", ", modified, mode", ", name, hardlinks", ", is_symlink, uid"])
+                if extra:
+                    res.count("queries_with_metadata_columns")
+                run_case(res, w, home, roots, snaps, spec, trace=(qi % 4 == 0), extra=extra)
         elif job["kind"] == "nonutf8":
             # names that are not valid UTF-8 (legal on Linux): rows are printed lossily, so entries can only be counted:
             # the multiset of lossy spellings must equal the multiset of the entries' lossy spellings
